@@ -2004,7 +2004,7 @@ func (a *Agent) handleStreamOpen(peerID identity.AgentID, frame *protocol.Frame)
 		Payload:  fwdOpen.Encode(),
 	}
 
-	if err := a.peerMgr.SendToPeer(nextHop, fwdFrame); err != nil {
+	if err := conn.WriteFrame(fwdFrame); err != nil {
 		// Clean up relay entry on failure
 		a.tcpRelay.Delete(relay)
 
@@ -3078,7 +3078,12 @@ func (a *Agent) DialContext(ctx context.Context, network, address string) (net.C
 		Payload:  openPayload.Encode(),
 	}
 
-	if err := a.peerMgr.SendToPeer(route.NextHop, frame); err != nil {
+	// The open goes out on the connection its stream ID was allocated from,
+	// not on whatever connection the peer has by now: if that connection was
+	// lost in the meantime (its clean-up has already failed this open), the
+	// write fails instead of starting, over a later connection, a stream that
+	// nobody here will ever close.
+	if err := conn.WriteFrame(frame); err != nil {
 		a.streamMgr.CancelPendingRequest(pending.RequestID)
 		return nil, fmt.Errorf("send stream open: %w", err)
 	}
@@ -3190,7 +3195,7 @@ func (a *Agent) dialViaDomainRouteWithContext(ctx context.Context, network, host
 		Payload:  openPayload.Encode(),
 	}
 
-	if err := a.peerMgr.SendToPeer(route.NextHop, frame); err != nil {
+	if err := conn.WriteFrame(frame); err != nil {
 		a.streamMgr.CancelPendingRequest(pending.RequestID)
 		return nil, fmt.Errorf("send stream open: %w", err)
 	}
@@ -3304,7 +3309,7 @@ func (a *Agent) DialForward(ctx context.Context, key string) (net.Conn, error) {
 		Payload:  openPayload.Encode(),
 	}
 
-	if err := a.peerMgr.SendToPeer(route.NextHop, frame); err != nil {
+	if err := conn.WriteFrame(frame); err != nil {
 		a.streamMgr.CancelPendingRequest(pending.RequestID)
 		return nil, fmt.Errorf("send stream open: %w", err)
 	}
@@ -4598,7 +4603,7 @@ func (a *Agent) UploadFile(ctx context.Context, targetID identity.AgentID, local
 		Payload:  openPayload.Encode(),
 	}
 
-	if err := a.peerMgr.SendToPeer(nextHop, frame); err != nil {
+	if err := conn.WriteFrame(frame); err != nil {
 		crypto.ZeroKey(&ephPriv)
 		return fmt.Errorf("send stream open: %w", err)
 	}
@@ -4870,7 +4875,7 @@ func (a *Agent) DownloadFile(ctx context.Context, targetID identity.AgentID, rem
 		Payload:  openPayload.Encode(),
 	}
 
-	if err := a.peerMgr.SendToPeer(nextHop, frame); err != nil {
+	if err := conn.WriteFrame(frame); err != nil {
 		crypto.ZeroKey(&ephPriv)
 		return fmt.Errorf("send stream open: %w", err)
 	}
@@ -5038,7 +5043,7 @@ func (a *Agent) DownloadFileStream(ctx context.Context, targetID identity.AgentI
 		Payload:  openPayload.Encode(),
 	}
 
-	if err := a.peerMgr.SendToPeer(nextHop, frame); err != nil {
+	if err := conn.WriteFrame(frame); err != nil {
 		crypto.ZeroKey(&ephPriv)
 		return nil, fmt.Errorf("send stream open: %w", err)
 	}
@@ -5560,7 +5565,7 @@ func (a *Agent) OpenShellStream(ctx context.Context, targetID identity.AgentID, 
 		Payload:  openPayload.Encode(),
 	}
 
-	if err := a.peerMgr.SendToPeer(nextHop, frame); err != nil {
+	if err := conn.WriteFrame(frame); err != nil {
 		crypto.ZeroKey(&ephPriv)
 		a.cleanupShellClientStream(streamID)
 		return nil, fmt.Errorf("send stream open: %w", err)
